@@ -1,5 +1,6 @@
 import PymtlVerif.Driver.Sexp
 import PymtlVerif.Model.Hier
+import PymtlVerif.Driver.HierHook
 /-!
 Handler `hier`: executable face of `Model/Hier.lean` for the C14 correspondence check.
 
@@ -11,6 +12,7 @@ Requests
 * `hier resolve <desc> (<access>*) <toks>` — evaluate a (possibly non-canonical) expression; reply
   `ok <rendered canonical name> <isobj>` or `none`.
 * `hier render <toks>` — reply `str <rendered>`.
+* `hier hook (<cls>*)` — the naming hook as a state transformer: see `Driver/HierHook.lean`.
 
 `<desc>` = `(comp (name sval)*)` | `(ifc (name sval)*)` | `(mport)` | `(sig wire|in|out ty)`;
 `<sval>` = `(one desc)` | `(many sval*)`; `<ty>` = `(bits n)` | `(struct (name fval)*)`;
@@ -114,6 +116,7 @@ def handle (args : List Sexp) : Option String :=
   | [.atom "render", ts] => do
       let ts ← toks? ts
       some ("str " ++ render (.root :: ts))
+  | .atom "hook" :: rest => PV.Driver.HierHook.handle rest
   | _ => none
 
 end PV.Driver.Hier
